@@ -20,6 +20,122 @@ import RarenaVerif.Model.File
 
 namespace Rarena.C05
 
+/-! byte-array helper lemmas -/
+
+theorem rd_extract (a : Mem) (n i : Nat) : Mem.rd (a.extract 0 n) i = if i < n then a.rd i else 0 := by
+  unfold Mem.rd
+  rw [Array.getElem?_extract]
+  by_cases h : i < n
+  · by_cases h2 : i < a.size
+    · rw [if_pos (by omega), if_pos h]; simp
+    · rw [if_neg (by omega), if_pos h]
+      have : a[i]? = none := by simp; omega
+      simp [this]
+  · rw [if_neg (by omega), if_neg h]; rfl
+
+theorem rd_append (a b : Mem) (i : Nat) : (a ++ b).rd i = if i < a.size then a.rd i else b.rd (i - a.size) := by
+  unfold Mem.rd
+  rw [Array.getElem?_append]
+  split <;> rfl
+
+theorem rd_replicate (n i : Nat) : Mem.rd (Array.replicate n (0 : UInt8)) i = 0 := by
+  unfold Mem.rd
+  rw [Array.getElem?_replicate]
+  split <;> rfl
+
+theorem rd_extendTo (f : Mem) (n i : Nat) : (extendTo f n).rd i = f.rd i := by
+  unfold extendTo
+  split
+  · rw [rd_append]
+    split
+    · rfl
+    · rw [rd_replicate, Mem.rd_oob]; omega
+  · rfl
+
+theorem size_extendTo (f : Mem) (n : Nat) : (extendTo f n).size = max f.size n := by
+  unfold extendTo
+  split
+  · simp; omega
+  · omega
+
+/-! the image -/
+
+theorem size_image (c : Cfg) (s : St) : (s.image c).size = s.mem.size := by
+  unfold St.image; split <;> simp
+
+theorem image_rd_header (c : Cfg) (s : St) (hu : c.unify = true) (k : Nat) (hk : k < HEADER_SIZE)
+    (hsz : headerOffset c.reserved + HEADER_SIZE ≤ s.mem.size) :
+    (s.image c).rd (headerOffset c.reserved + k) = (s.headerByte k).toNat := by
+  unfold St.image
+  rw [if_pos hu]
+  simp only []
+  rw [Mem.rd_update, if_pos (by omega), Nat.add_sub_cancel_left]
+
+theorem image_rd_out (c : Cfg) (s : St) (i : Nat)
+    (h : i < headerOffset c.reserved ∨ headerOffset c.reserved + HEADER_SIZE ≤ i) :
+    (s.image c).rd i = s.mem.rd i := by
+  unfold St.image
+  split
+  · exact Mem.rd_update_out _ _ _ _ _ h
+  · rfl
+
+theorem sanityCheck_congr (m m' : Mem) (r : Nat) (e : Option Kind) (magic : Nat)
+    (h : ∀ i, r + 1 ≤ i → i < r + 8 → m.rd i = m'.rd i) :
+    sanityCheck m r e magic = sanityCheck m' r e magic := by
+  unfold sanityCheck
+  rw [h (r + 1) (by omega) (by omega), h (r + 2) (by omega) (by omega), h (r + 3) (by omega) (by omega),
+    Mem.readLE_congr m m' (r + 4) 2 (fun i h1 h2 => h i (by omega) (by omega)),
+    Mem.readLE_congr m m' (r + 6) 2 (fun i h1 h2 => h i (by omega) (by omega))]
+
+theorem parseHeader_congr (m m' : Mem) (r : Nat)
+    (h : ∀ i, headerOffset r ≤ i → i < headerOffset r + 20 → m.rd i = m'.rd i) :
+    parseHeader m r = parseHeader m' r := by
+  unfold parseHeader
+  simp only []
+  rw [Mem.readLE_congr m m' (headerOffset r) 8 (fun i h1 h2 => h i (by omega) (by omega)),
+    Mem.readLE_congr m m' (headerOffset r + 8) 4 (fun i h1 h2 => h i (by omega) (by omega)),
+    Mem.readLE_congr m m' (headerOffset r + 12) 4 (fun i h1 h2 => h i (by omega) (by omega)),
+    Mem.readLE_congr m m' (headerOffset r + 16) 4 (fun i h1 h2 => h i (by omega) (by omega))]
+
+/-- header round trip: the header record rendered into the image is read back by `parseHeader` -/
+theorem header_roundtrip (c : Cfg) (s : St) (hu : c.unify = true) (hs : s.sentinel < TWO64)
+    (ha : s.allocated < TWO32) (hm : s.minSeg < TWO32) (hd : s.discarded < TWO32)
+    (hsz : headerOffset c.reserved + HEADER_SIZE ≤ s.mem.size) :
+    parseHeader (s.image c) c.reserved = (s.sentinel, s.allocated, s.minSeg, s.discarded) := by
+  unfold parseHeader
+  simp only []
+  have e1 : (s.image c).readLE (headerOffset c.reserved) 8 = s.sentinel := by
+    rw [Mem.readLE_of_bytes _ _ _ s.sentinel]
+    · apply Nat.mod_eq_of_lt; unfold TWO64 at hs; omega
+    · intro k hk
+      rw [image_rd_header c s hu k (by unfold HEADER_SIZE; omega) hsz]
+      unfold St.headerByte
+      rw [if_pos hk, Mem.byteLE_toNat]
+  have e2 : (s.image c).readLE (headerOffset c.reserved + 8) 4 = s.allocated := by
+    rw [Mem.readLE_of_bytes _ _ _ s.allocated]
+    · apply Nat.mod_eq_of_lt; unfold TWO32 at ha; omega
+    · intro k hk
+      rw [Nat.add_assoc, image_rd_header c s hu (8 + k) (by unfold HEADER_SIZE; omega) hsz]
+      unfold St.headerByte
+      rw [if_neg (by omega), if_pos (by omega), Mem.byteLE_toNat, Nat.add_sub_cancel_left]
+  have e3 : (s.image c).readLE (headerOffset c.reserved + 12) 4 = s.minSeg := by
+    rw [Mem.readLE_of_bytes _ _ _ s.minSeg]
+    · apply Nat.mod_eq_of_lt; unfold TWO32 at hm; omega
+    · intro k hk
+      rw [Nat.add_assoc, image_rd_header c s hu (12 + k) (by unfold HEADER_SIZE; omega) hsz]
+      unfold St.headerByte
+      rw [if_neg (by omega), if_neg (by omega), if_pos (by omega), Mem.byteLE_toNat, Nat.add_sub_cancel_left]
+  have e4 : (s.image c).readLE (headerOffset c.reserved + 16) 4 = s.discarded := by
+    rw [Mem.readLE_of_bytes _ _ _ s.discarded]
+    · apply Nat.mod_eq_of_lt; unfold TWO32 at hd; omega
+    · intro k hk
+      rw [Nat.add_assoc, image_rd_header c s hu (16 + k) (by unfold HEADER_SIZE; omega) hsz]
+      unfold St.headerByte
+      rw [if_neg (by omega), if_neg (by omega), if_neg (by omega), if_pos (by omega), Mem.byteLE_toNat,
+        Nat.add_sub_cancel_left]
+  rw [e1, e2, e3, e4]
+
+
 /-- options of a reopen that match the arena that wrote the file -/
 def Matches (o : OpenOpts) (c : Cfg) (magic : Nat) : Prop :=
   o.kind = c.kind ∧ o.reserved = c.reserved ∧ o.magic = magic ∧ o.createNew = false
@@ -29,12 +145,220 @@ def WellFormedFile (c : Cfg) (s : St) (magic : Nat) : Prop :=
   c.unify = true ∧ c.dataOffset = dataOffsetUnify c.reserved ∧
   sanityCheck s.mem c.reserved (some c.kind) magic = .ok c.kind
 
-/-- header round trip: the header record rendered into the image is read back by `parseHeader` -/
-theorem header_roundtrip (c : Cfg) (s : St) (hu : c.unify = true) (hs : s.sentinel < TWO64)
-    (ha : s.allocated < TWO32) (hm : s.minSeg < TWO32) (hd : s.discarded < TWO32)
-    (hsz : headerOffset c.reserved + HEADER_SIZE ≤ s.mem.size) :
-    parseHeader (s.image c) c.reserved = (s.sentinel, s.allocated, s.minSeg, s.discarded) := by
-  sorry
+/-- the part of `openWritable` after the file `f1` (already extended) has been obtained, for an existing file -/
+def existingTail (o : OpenOpts) (priv : Bool) (f1 : Mem) (mapLen : Nat) : Except IoKind Opened × FileSys :=
+  if mapLen = 0 then (.error .invalidInput, some f1)
+  else if prefixSize o.reserved > mapLen then (.error .invalidInput, some f1)
+  else
+    let view : Mem := f1.extract 0 mapLen
+    let cfg : Cfg := { sync := o.sync, kind := o.kind, ro := false, retries := o.retries,
+                       dataOffset := dataOffsetUnify o.reserved, reserved := o.reserved, unify := true,
+                       fileBacked := true }
+    match sanityCheck view o.reserved (some o.kind) o.magic with
+    | .error e => (.error e, some f1)
+    | .ok _ =>
+      let hd := parseHeader view o.reserved
+      let mem := if mapLen > hd.2.1 then view.zero hd.2.1 (mapLen - hd.2.1) else view
+      let st : St := { mem := mem, sentinel := hd.1, allocated := hd.2.1, minSeg := hd.2.2.1,
+                       discarded := hd.2.2.2 }
+      (.ok { cfg := cfg, st := st, mapping := if priv then .priv else .shared },
+       some (if priv then f1 else (st.image cfg) ++ f1.extract mapLen f1.size))
+
+theorem openWritable_existing (o : OpenOpts) (priv : Bool) (f : Mem) (hnew : o.createNew = false) :
+    openWritable o priv (some f) =
+      if f.size < prefixSize o.reserved then (.error .invalidInput, some f)
+      else match o.cap with
+        | some c => existingTail o priv (extendTo f c) c
+        | none => existingTail o priv f f.size := by
+  unfold openWritable existingTail
+  simp only [hnew]
+  cases o.cap <;> cases o.create <;> simp <;> rfl
+
+
+/-- `openReadOnly` on an existing file, the mapped length made a parameter -/
+def roTail (o : OpenOpts) (f : Mem) (mapLen : Nat) : Except IoKind Opened :=
+  if f.size < prefixSize o.reserved then .error .invalidInput
+  else if mapLen = 0 then .error .invalidInput
+  else if prefixSize o.reserved > mapLen then .error .invalidInput
+  else
+    let view : Mem := f.extract 0 mapLen
+    match sanityCheck view o.reserved none o.magic with
+    | .error e => .error e
+    | .ok k =>
+      let hd := parseHeader view o.reserved
+      let cfg : Cfg := { sync := o.sync, kind := k, ro := true, retries := o.retries,
+                         dataOffset := dataOffsetUnify o.reserved, reserved := o.reserved, unify := true,
+                         fileBacked := true }
+      .ok { cfg := cfg, mapping := .roShared,
+            st := { mem := view, sentinel := hd.1, allocated := hd.2.1, minSeg := hd.2.2.1, discarded := hd.2.2.2 } }
+
+theorem openReadOnly_some (o : OpenOpts) (f : Mem) :
+    openReadOnly o (some f) = roTail o f (match o.cap with | some c => min f.size c | none => f.size) := rfl
+
+
+/-- the configuration a writable open builds -/
+def mkCfg (o : OpenOpts) : Cfg :=
+  { sync := o.sync, kind := o.kind, ro := false, retries := o.retries,
+    dataOffset := dataOffsetUnify o.reserved, reserved := o.reserved, unify := true, fileBacked := true }
+
+/-- scalar facts contained in the invariant of a unified arena -/
+structure Facts (c : Cfg) (s : St) : Prop where
+  hu : c.unify = true
+  hdo : c.dataOffset = headerOffset c.reserved + HEADER_SIZE
+  mid : c.dataOffset ≤ s.allocated
+  hi : s.allocated ≤ s.mem.size
+  cap : s.mem.size + 8192 ≤ TWO32
+  sent : s.sentinel < TWO64
+  minSeg : s.minSeg < TWO32
+  disc : s.discarded < TWO32
+
+theorem facts (c : Cfg) (s : St) (free : List Seg) (lives : List Ext) (magic : Nat)
+    (hinv : CInv c s free lives) (hwf : WellFormedFile c s magic) : Facts c s := by
+  have hmid : c.dataOffset ≤ s.allocated := hinv.wf.mid
+  have hhi : s.allocated ≤ s.mem.size := hinv.wf.hi
+  have hcap : s.mem.size + 8192 ≤ TWO32 := hinv.capGuard
+  refine ⟨hwf.1, hwf.2.1, hmid, hhi, hcap, ?_, hinv.minSegLt, hinv.wf.disc⟩
+  rw [hinv.sent]
+  apply enc_lt _ _ maxu32_lt
+  apply hd_lt
+  intro g hg
+  have := (hinv.wf.segs g hg).2.2.2
+  have h2 : g.off + NODE + g.size ≤ s.allocated := this
+  unfold MAXU32; unfold TWO32 at hcap; unfold NODE at h2; omega
+
+
+theorem reserved_lt_header (r : Nat) : r + 8 ≤ headerOffset r := by
+  unfold headerOffset; omega
+
+/-- the view of the reopened file agrees with the image below the old capacity -/
+theorem view_rd (c : Cfg) (s : St) (f1 : Mem) (n : Nat)
+    (hf1 : ∀ i, i < s.mem.size → f1.rd i = (s.image c).rd i) (i : Nat) (h1 : i < n) (h2 : i < s.mem.size) :
+    Mem.rd (f1.extract 0 n) i = (s.image c).rd i := by
+  rw [rd_extract, if_pos h1, hf1 i h2]
+
+theorem view_sanity (c : Cfg) (s : St) (fc : Facts c s) (f1 : Mem) (n : Nat) (e : Option Kind) (magic : Nat)
+    (hn : c.dataOffset ≤ n) (hf1 : ∀ i, i < s.mem.size → f1.rd i = (s.image c).rd i) :
+    sanityCheck (f1.extract 0 n) c.reserved e magic = sanityCheck s.mem c.reserved e magic := by
+  apply sanityCheck_congr
+  intro i h1 h2
+  have := reserved_lt_header c.reserved
+  have := fc.hdo; have := fc.mid; have := fc.hi
+  rw [view_rd c s f1 n hf1 i (by omega) (by omega), image_rd_out c s i (by omega)]
+
+theorem view_header (c : Cfg) (s : St) (fc : Facts c s) (f1 : Mem) (n : Nat)
+    (hn : c.dataOffset ≤ n) (hf1 : ∀ i, i < s.mem.size → f1.rd i = (s.image c).rd i) :
+    parseHeader (f1.extract 0 n) c.reserved = (s.sentinel, s.allocated, s.minSeg, s.discarded) := by
+  have := fc.hdo; have := fc.mid; have := fc.hi; have := fc.cap
+  have hh : HEADER_SIZE = 24 := rfl
+  rw [← header_roundtrip c s fc.hu fc.sent (by unfold TWO32 at *; omega) fc.minSeg fc.disc (by omega)]
+  apply parseHeader_congr
+  intro i h1 h2
+  exact view_rd c s f1 n hf1 i (by omega) (by omega)
+
+/-- the memory a writable reopen maps: the view, zeroed above the stored cursor -/
+def reMem (s : St) (f1 : Mem) (n : Nat) : Mem :=
+  if n > s.allocated then Mem.zero (f1.extract 0 n) s.allocated (n - s.allocated) else f1.extract 0 n
+
+theorem existingTail_eq (c : Cfg) (s : St) (fc : Facts c s) (magic : Nat) (o : OpenOpts) (priv : Bool)
+    (f1 : Mem) (n : Nat) (hwf : WellFormedFile c s magic) (ho : Matches o c magic)
+    (hn : c.dataOffset ≤ n) (hf1 : ∀ i, i < s.mem.size → f1.rd i = (s.image c).rd i) :
+    ∃ r fs', existingTail o priv f1 n = (.ok r, fs') ∧ r.cfg = mkCfg o ∧
+      r.st = { mem := reMem s f1 n, sentinel := s.sentinel, allocated := s.allocated, minSeg := s.minSeg,
+               discarded := s.discarded } := by
+  obtain ⟨hk, hr, hmg, _⟩ := ho
+  have hsan := view_sanity c s fc f1 n (some c.kind) magic hn hf1
+  rw [hwf.2.2] at hsan
+  have hhd := view_header c s fc f1 n hn hf1
+  have := fc.hdo; have := fc.mid
+  have hh : HEADER_SIZE = 24 := rfl
+  have hp : prefixSize o.reserved = c.dataOffset := by rw [hr]; unfold prefixSize; exact hwf.2.1.symm
+  unfold existingTail
+  rw [if_neg (by omega), if_neg (by omega)]
+  rw [← hk, ← hr, ← hmg] at hsan
+  rw [← hr] at hhd
+  simp only [hsan, hhd]
+  exact ⟨_, _, rfl, rfl, rfl⟩
+
+
+theorem size_reMem (s : St) (f1 : Mem) (n : Nat) (hsz : n ≤ f1.size) : (reMem s f1 n).size = n := by
+  unfold reMem
+  split <;> simp <;> omega
+
+theorem reMem_rd_lo (c : Cfg) (s : St) (fc : Facts c s) (f1 : Mem) (n : Nat)
+    (hf1 : ∀ i, i < s.mem.size → f1.rd i = (s.image c).rd i) (i : Nat) (hi : i < s.allocated) (hin : i < n) :
+    (reMem s f1 n).rd i = (s.image c).rd i := by
+  have := fc.hi
+  unfold reMem
+  split
+  · rw [Mem.rd_zero_out _ _ _ _ (Or.inl hi)]
+    exact view_rd c s f1 n hf1 i (by omega) (by omega)
+  · exact view_rd c s f1 n hf1 i (by omega) (by omega)
+
+theorem reMem_rd_hi (s : St) (f1 : Mem) (n : Nat) (hsz : n ≤ f1.size) (i : Nat) (hi : s.allocated ≤ i) :
+    (reMem s f1 n).rd i = 0 := by
+  by_cases h : i < n
+  · unfold reMem
+    rw [if_pos (by omega)]
+    exact Mem.rd_zero_in _ _ _ _ hi (by omega)
+  · apply Mem.rd_oob
+    rw [size_reMem s f1 n hsz]; omega
+
+/-- `Chain` transported to a memory that may be shorter, as long as it still holds all node words -/
+theorem chain_congr' {m m' : Mem} (l : List Seg) (hs : ∀ g ∈ l, g.off + 8 ≤ m'.size)
+    (hw : ∀ g ∈ l, m'.readWord g.off = m.readWord g.off) (h : Chain m l) : Chain m' l := by
+  induction l with
+  | nil => trivial
+  | cons g rest ih =>
+    refine ⟨hs g List.mem_cons_self, ?_, ih (fun x hx => hs x (List.mem_cons_of_mem _ hx))
+      (fun x hx => hw x (List.mem_cons_of_mem _ hx)) h.2.2⟩
+    rw [hw g List.mem_cons_self]; exact h.2.1
+
+theorem reopened_cinv (c : Cfg) (s : St) (free : List Seg) (lives : List Ext) (magic : Nat) (o : OpenOpts)
+    (f1 : Mem) (n : Nat) (hinv : CInv c s free lives) (hwf : WellFormedFile c s magic) (ho : Matches o c magic)
+    (hr : o.sync = true → 1 ≤ o.retries ∧ o.retries ≤ 255)
+    (hn : s.allocated ≤ n) (hcap : n + 8192 ≤ TWO32) (hsz : n ≤ f1.size)
+    (hf1 : ∀ i, i < s.mem.size → f1.rd i = (s.image c).rd i) :
+    CInv (mkCfg o) { mem := reMem s f1 n, sentinel := s.sentinel, allocated := s.allocated, minSeg := s.minSeg,
+                     discarded := s.discarded } free lives := by
+  have fc := facts c s free lives magic hinv hwf
+  obtain ⟨hk, hres, hmg, _⟩ := ho
+  have hdo : (mkCfg o).dataOffset = c.dataOffset := by
+    show dataOffsetUnify o.reserved = _
+    rw [hres]; exact hwf.2.1.symm
+  have hkind : (mkCfg o).kind = c.kind := hk
+  have w := hinv.wf
+  refine ⟨⟨?_, ?_, w.disjoint, ?_, ?_, ?_, ?_, ?_, w.disc⟩, ?_, hinv.sent, ?_, hinv.minSegLt, hr⟩
+  · rw [hdo]; exact w.segs
+  · rw [hkind]; exact w.sorted
+  · rw [hdo]; exact w.lives_in
+  · rw [hdo]; exact w.lo
+  · rw [hdo]; exact w.mid
+  · show s.allocated ≤ (reMem s f1 n).size
+    rw [size_reMem s f1 n hsz]; exact hn
+  · rw [hkind]; exact w.none_empty
+  · have hseg : ∀ g ∈ free, c.dataOffset ≤ g.off ∧ g.off + 8 ≤ s.allocated := by
+      intro g hg
+      obtain ⟨_, _, h3, h4⟩ := w.segs g hg
+      have h4' : g.off + NODE + g.size ≤ s.allocated := h4
+      unfold NODE at h4'
+      exact ⟨h3, by omega⟩
+    apply chain_congr' free _ _ hinv.chain
+    · intro g hg
+      rw [size_reMem s f1 n hsz]
+      have := (hseg g hg).2; omega
+    · intro g hg
+      have := hseg g hg
+      have := fc.hdo
+      unfold Mem.readWord
+      apply Mem.readLE_congr
+      intro i h1 h2
+      rw [reMem_rd_lo c s fc f1 n hf1 i (by omega) (by omega), image_rd_out c s i (by omega)]
+  · show (reMem s f1 n).size + 8192 ≤ TWO32
+    rw [size_reMem s f1 n hsz]; exact hcap
+
+theorem file_rd (c : Cfg) (s : St) (tail : Mem) (i : Nat) (hi : i < s.mem.size) :
+    (s.image c ++ tail).rd i = (s.image c).rd i := by
+  rw [rd_append, if_pos (by rw [size_image]; exact hi)]
 
 /-- writable reopen (`map_mut` / `map_copy`) with the same, a larger or no capacity: same scalars, same bytes
     below the cursor, zero above it, the concrete invariant for the same free list and live extents -/
@@ -49,7 +373,54 @@ theorem reopen_writable (c : Cfg) (s : St) (free : List Seg) (lives : List Ext) 
       (∀ i, i < s.allocated → r.st.mem.rd i = (s.image c).rd i) ∧
       (∀ i, s.allocated ≤ i → r.st.mem.rd i = 0) ∧
       CInv r.cfg r.st free lives := by
-  sorry
+  have fc := facts c s free lives magic hinv hwf
+  have hfsz : (s.image c ++ tail).size = s.mem.size + tail.size := by rw [Array.size_append, size_image]
+  have hp : prefixSize o.reserved = c.dataOffset := by rw [ho.2.1]; unfold prefixSize; exact hwf.2.1.symm
+  have h1 := fc.mid; have h2 := fc.hi
+  -- everything follows once the mapped file `f1` and length `n` are known
+  have key : ∀ (f1 : Mem) (n : Nat), s.allocated ≤ n → n + 8192 ≤ TWO32 → n ≤ f1.size →
+      (∀ i, i < s.mem.size → f1.rd i = (s.image c).rd i) →
+      ∃ r fs', existingTail o priv f1 n = (.ok r, fs') ∧
+        r.st.allocated = s.allocated ∧ r.st.discarded = s.discarded ∧ r.st.minSeg = s.minSeg ∧
+        r.st.sentinel = s.sentinel ∧ r.cfg.dataOffset = c.dataOffset ∧ r.cfg.kind = c.kind ∧ r.cfg.ro = false ∧
+        (∀ i, i < s.allocated → r.st.mem.rd i = (s.image c).rd i) ∧
+        (∀ i, s.allocated ≤ i → r.st.mem.rd i = 0) ∧
+        CInv r.cfg r.st free lives := by
+    intro f1 n hn hc hsz hf1
+    obtain ⟨r, fs', e, hcfg, hst⟩ := existingTail_eq c s fc magic o priv f1 n hwf ho (by omega) hf1
+    refine ⟨r, fs', e, ?_⟩
+    rw [hcfg, hst]
+    refine ⟨rfl, rfl, rfl, rfl, ?_, ho.1, rfl, ?_, ?_, ?_⟩
+    · show dataOffsetUnify o.reserved = _
+      rw [ho.2.1]; exact hwf.2.1.symm
+    · exact fun i hi => reMem_rd_lo c s fc f1 n hf1 i hi (by omega)
+    · exact fun i hi => reMem_rd_hi s f1 n hsz i hi
+    · exact reopened_cinv c s free lives magic o f1 n hinv hwf ho hr hn hc hsz hf1
+  rw [openWritable_existing o priv _ ho.2.2.2, if_neg (by rw [hfsz, hp]; omega)]
+  cases hc : o.cap with
+  | none =>
+    rw [hc] at hcap
+    simp only [] at hcap ⊢
+    have hcap' : (s.mem.size + tail.size) + 8192 ≤ TWO32 := hcap
+    exact key _ _ (by rw [hfsz]; omega) (by rw [hfsz]; exact hcap') (Nat.le_refl _)
+      (fun i hi => file_rd c s tail i hi)
+  | some n =>
+    rw [hc] at hcap
+    simp only [] at hcap ⊢
+    exact key _ n hcap.1 hcap.2 (by rw [size_extendTo]; omega)
+      (fun i hi => by rw [rd_extendTo]; exact file_rd c s tail i hi)
+
+
+theorem sanity_none (m : Mem) (r : Nat) (k : Kind) (magic : Nat)
+    (h : sanityCheck m r (some k) magic = .ok k) : sanityCheck m r none magic = .ok k := by
+  unfold sanityCheck at h ⊢
+  split at h
+  · cases h
+  · rename_i k' hk'
+    split at h
+    · cases h
+    · rw [if_neg (by simp)]
+      exact h
 
 /-- read-only reopen: same scalars, freelist kind read from the file, the mapping is the file -/
 theorem reopen_read_only (c : Cfg) (s : St) (free : List Seg) (lives : List Ext) (magic : Nat) (o : OpenOpts)
@@ -59,7 +430,41 @@ theorem reopen_read_only (c : Cfg) (s : St) (free : List Seg) (lives : List Ext)
       r.st.allocated = s.allocated ∧ r.st.discarded = s.discarded ∧ r.st.minSeg = s.minSeg ∧
       r.st.sentinel = s.sentinel ∧ r.cfg.dataOffset = c.dataOffset ∧ r.cfg.kind = c.kind ∧ r.cfg.ro = true ∧
       (∀ i, i < s.allocated → r.st.mem.rd i = (s.image c).rd i) := by
-  sorry
+  have fc := facts c s free lives magic hinv hwf
+  have hfsz : (s.image c ++ tail).size = s.mem.size + tail.size := by rw [Array.size_append, size_image]
+  have hp : prefixSize o.reserved = c.dataOffset := by rw [ho.1]; unfold prefixSize; exact hwf.2.1.symm
+  have h1 := fc.mid; have h2 := fc.hi
+  have hf1 : ∀ i, i < s.mem.size → (s.image c ++ tail).rd i = (s.image c).rd i := fun i hi => file_rd c s tail i hi
+  rw [openReadOnly_some]
+  have hn : s.allocated ≤ (match o.cap with | some c_1 => min (s.image c ++ tail).size c_1 | none => (s.image c ++ tail).size) := by
+    cases hc : o.cap with
+    | none => simp only []; omega
+    | some n => simp only []; have := hcap n hc; omega
+  generalize (match o.cap with | some c_1 => min (s.image c ++ tail).size c_1 | none => (s.image c ++ tail).size) = n at hn
+  have hsan := view_sanity c s fc _ n none magic (by omega) hf1
+  rw [sanity_none _ _ _ _ hwf.2.2, ← ho.1, ← ho.2] at hsan
+  have hhd := view_header c s fc _ n (by omega) hf1
+  rw [← ho.1] at hhd
+  have := fc.hdo
+  have hh : HEADER_SIZE = 24 := rfl
+  unfold roTail
+  rw [if_neg (by omega), if_neg (by omega), if_neg (by omega)]
+  simp only [hsan, hhd]
+  refine ⟨_, rfl, rfl, rfl, rfl, rfl, ?_, rfl, rfl, ?_⟩
+  · show dataOffsetUnify o.reserved = _
+    rw [ho.1]; exact hwf.2.1.symm
+  · intro i hi
+    exact view_rd c s _ n hf1 i (by omega) (by omega)
+
+
+theorem existingTail_ok_inv (o : OpenOpts) (priv : Bool) (f1 : Mem) (n : Nat) (r : Opened) (fs' : FileSys)
+    (h : existingTail o priv f1 n = (.ok r, fs')) : prefixSize o.reserved ≤ n := by
+  unfold existingTail at h
+  split at h
+  · cases h
+  · split at h
+    · cases h
+    · omega
 
 /-- the reopened state writes a well-formed file again, so the argument repeats for every further cycle -/
 theorem cycles (c : Cfg) (s : St) (free : List Seg) (lives : List Ext) (magic : Nat) (o : OpenOpts)
@@ -67,11 +472,93 @@ theorem cycles (c : Cfg) (s : St) (free : List Seg) (lives : List Ext) (magic : 
     (hinv : CInv c s free lives) (hwf : WellFormedFile c s magic) (ho : Matches o c magic)
     (h : openWritable o priv (some (s.image c ++ tail)) = (.ok r, fs')) :
     WellFormedFile r.cfg r.st magic := by
-  sorry
+  have fc := facts c s free lives magic hinv hwf
+  have hp : prefixSize o.reserved = c.dataOffset := by rw [ho.2.1]; unfold prefixSize; exact hwf.2.1.symm
+  have key : ∀ (f1 : Mem) (n : Nat), (∀ i, i < s.mem.size → f1.rd i = (s.image c).rd i) →
+      existingTail o priv f1 n = (.ok r, fs') → WellFormedFile r.cfg r.st magic := by
+    intro f1 n hf1 e
+    have hn := existingTail_ok_inv o priv f1 n r fs' e
+    rw [hp] at hn
+    obtain ⟨r', fs'', e', hcfg, hst⟩ := existingTail_eq c s fc magic o priv f1 n hwf ho hn hf1
+    rw [e] at e'
+    simp only [Prod.mk.injEq, Except.ok.injEq] at e'
+    obtain ⟨rfl, _⟩ := e'
+    rw [hcfg, hst]
+    refine ⟨rfl, rfl, ?_⟩
+    show sanityCheck (reMem s f1 n) o.reserved (some o.kind) magic = .ok o.kind
+    rw [ho.1, ho.2.1, ← hwf.2.2]
+    apply sanityCheck_congr
+    intro i h1 h2
+    have := reserved_lt_header c.reserved
+    have := fc.hdo; have := fc.mid
+    rw [reMem_rd_lo c s fc f1 n hf1 i (by omega) (by omega), image_rd_out c s i (by omega)]
+  rw [openWritable_existing o priv _ ho.2.2.2] at h
+  split at h
+  · cases h
+  · cases hc : o.cap with
+    | none =>
+      rw [hc] at h
+      exact key _ _ (fun i hi => file_rd c s tail i hi) h
+    | some n =>
+      rw [hc] at h
+      exact key _ n (fun i hi => by rw [rd_extendTo]; exact file_rd c s tail i hi) h
 
+
+theorem sanity_writeSanity (m : Mem) (r : Nat) (k : Kind) (magic : Nat) (hsz : r + 8 ≤ m.size)
+    (hm : magic < 65536) : sanityCheck (writeSanity m r k magic) r (some k) magic = .ok k := by
+  have e1 : (writeSanity m r k magic).rd (r + 1) = kindByte k := by
+    unfold writeSanity Mem.writeLE
+    simp only []
+    rw [Mem.rd_update_out _ _ _ _ _ (by omega), Mem.rd_update_out _ _ _ _ _ (by omega),
+      Mem.rd_update_out _ _ _ _ _ (by omega), Mem.rd_update_out _ _ _ _ _ (by omega),
+      Mem.rd_update, if_pos (by omega)]
+    cases k <;> rfl
+  have e2 : (writeSanity m r k magic).rd (r + 2) = 97 := by
+    unfold writeSanity Mem.writeLE
+    simp only []
+    rw [Mem.rd_update_out _ _ _ _ _ (by omega), Mem.rd_update_out _ _ _ _ _ (by omega),
+      Mem.rd_update_out _ _ _ _ _ (by omega), Mem.rd_update, if_pos (by simp; omega)]
+    rfl
+  have e3 : (writeSanity m r k magic).rd (r + 3) = 108 := by
+    unfold writeSanity Mem.writeLE
+    simp only []
+    rw [Mem.rd_update_out _ _ _ _ _ (by omega), Mem.rd_update_out _ _ _ _ _ (by omega),
+      Mem.rd_update, if_pos (by simp; omega)]
+    rfl
+  have e4 : (writeSanity m r k magic).readLE (r + 4) 2 = magic := by
+    unfold writeSanity
+    simp only []
+    rw [Mem.readLE_writeLE_disjoint _ _ _ _ _ _ (by omega), Mem.readLE_writeLE_same _ _ _ _ (by simp; omega)]
+    exact Nat.mod_eq_of_lt (by omega)
+  have e5 : (writeSanity m r k magic).readLE (r + 6) 2 = 0 := by
+    unfold writeSanity
+    simp only []
+    rw [Mem.readLE_writeLE_same _ _ _ _ (by simp; omega)]
+  unfold sanityCheck
+  rw [e1, e2, e3, e4, e5]
+  cases k <;> simp [kindByte, kindOfByte]
+
+-- CHANGED: added `hmagic : o.magic < 65536`. The magic version is a `u16` in the code and `writeSanity` stores
+-- its two low bytes only, so for `o.magic ≥ 65536` the stored value differs from `o.magic` and `sanityCheck`
+-- against `o.magic` fails (counterexample: kind opt, reserved 0, cap 64, magic 65536 — checked with `decide`).
 /-- a freshly created file-backed arena writes a well-formed file -/
-theorem created_wellformed (o : Opts) (s : St) (hf : o.file = true) (h : o.init = some s) :
+theorem created_wellformed (o : Opts) (s : St) (hf : o.file = true) (h : o.init = some s)
+    (hmagic : o.magic < 65536) :
     WellFormedFile o.cfg s o.magic := by
-  sorry
+  have hu : o.unified = true := by unfold Opts.unified; rw [hf]; simp
+  have hd : o.dataOffset = dataOffsetUnify o.reserved := by unfold Opts.dataOffset; rw [if_pos hu]
+  refine ⟨hu, hd, ?_⟩
+  unfold Opts.init at h
+  split at h
+  · cases h
+  · rename_i hcap
+    simp only [Option.some.injEq] at h
+    subst h
+    show sanityCheck (writeSanity _ o.reserved o.kind o.magic) o.reserved (some o.kind) o.magic = .ok o.kind
+    apply sanity_writeSanity _ _ _ _ _ hmagic
+    have := reserved_lt_header o.reserved
+    rw [hd] at hcap
+    unfold dataOffsetUnify HEADER_SIZE at hcap
+    simp; omega
 
 end Rarena.C05
